@@ -861,6 +861,19 @@ def _loco2_ids(n):
         c.call((m, 'new_data'), m, 0x1000, c.snapshot('_a', 'bytes([na]) + act + atail'))
         c.ensure('active-ids', "raised is None and m.active_anchor_ids == list(act) and m.active_ids_valid is True and m.anchor_ids == list(ids)")
         c.ensure('active-reported-once', "calls() == ('acb',) and is_same(sent('acb')[0][1][0], m) and m._update_active_ids_finished_cb is None")
+        # history: the lists are read again later (anchors come and go); each read gives exactly the list of that read
+        na2 = 1 if n else 0
+        c.let('na2', na2)
+        c.bytes('act2', na2), c.bytes('atail2', 16 - na2)
+        c.call((m, 'update_active_id_list'), c.ext('acb2'))
+        c.reset_trace()
+        c.call((m, 'new_data'), m, 0x1000, c.snapshot('_a2', 'bytes([na2]) + act2 + atail2'))
+        c.ensure('active-ids-of-the-second-read-only', "raised is None and m.active_anchor_ids == list(act2) and m.active_ids_valid is True and calls() == ('acb2',)")
+        c.bytes('ids2', n), c.bytes('tail2', 16 - n)
+        c.call((m, 'update_id_list'), c.ext('cb2'))
+        c.reset_trace()
+        c.call((m, 'new_data'), m, 0, c.snapshot('_l2', 'bytes([n]) + ids2 + tail2'))
+        c.ensure('ids-of-the-second-read-only', "raised is None and m.nr_of_anchors == n and m.anchor_ids == list(ids2) and m.active_anchor_ids == [] and calls() == ('cb2',)")
     return k
 
 
